@@ -905,7 +905,7 @@ class CompressedBlockColumn(Column):
             pos = 0
             while pos < length:
                 startdoc, enddoc, blocklen, lengths = dbfile.read_pickle()
-                here = dbfile.tell()
+                here = dbfile.tell() - basepos
                 self._blocks.append((startdoc, enddoc, here, blocklen,
                                      lengths))
                 dbfile.seek(blocklen, 1)
